@@ -8,6 +8,7 @@ of the property the change breaks is run with VERIF_REPO pointing at the worktre
 VIOLATION line).  The worktree is removed afterwards.  Results go to seeded/RESULTS.json."""
 import json
 import os
+import re
 import shutil
 import subprocess
 import sys
@@ -33,6 +34,13 @@ def run_one(sid, all_checks=False, tier='quick', seeds=()):
         return {'id': sid, 'error': 'worktree: ' + out[-300:]}
     result = {'id': sid, 'property': meta['property']}
     try:
+        # the demonstration on the UNCHANGED tree first: it has to pass there
+        demo = meta.get('demo', 'demo.py')
+        src = open(os.path.join(d, demo)).read()
+        src = re.sub(r'/tmp/wt\d*-C\d\d[a-z]?', wt, src)      # demonstrations written in a sub-agent's own worktree
+        open(os.path.join(wt, 'demo_seeded.py'), 'w').write(src)
+        rc, out = sh([PY, 'demo_seeded.py'], cwd=wt, timeout=600)
+        result['demo_passes_without_change'] = rc == 0
         rc, out = sh(['git', 'apply', os.path.join(d, 'patch.diff')], cwd=wt)
         if rc:
             result['error'] = 'patch does not apply: ' + out[-300:]
@@ -40,13 +48,6 @@ def run_one(sid, all_checks=False, tier='quick', seeds=()):
         rc, out = sh([PY, '-m', 'pytest', '-q', '-p', 'no:cacheprovider', '-x'], cwd=wt)
         result['repo_tests_pass'] = rc == 0
         result['repo_tests_tail'] = out.strip().splitlines()[-1] if out.strip() else ''
-        demo = meta.get('demo', 'demo.py')
-        shutil.copy(os.path.join(d, demo), os.path.join(wt, 'demo_seeded.py'))
-        # the demonstrations assert their own worktree path: relax by environment-free copy
-        src = open(os.path.join(wt, 'demo_seeded.py')).read()
-        for i in range(1, 21):
-            src = src.replace('/tmp/wt-C%02d' % i, wt)
-        open(os.path.join(wt, 'demo_seeded.py'), 'w').write(src)
         rc, out = sh([PY, 'demo_seeded.py'], cwd=wt, timeout=600)
         result['demo_fails_with_change'] = rc != 0
         props = [meta['property']]
@@ -95,8 +96,8 @@ def main(argv):
     for sid in ids:
         r = run_one(sid, all_checks, tier, seeds)
         results[sid] = r
-        print('%-28s %-4s tests_pass=%s demo_fails=%s caught=%s seeds=%s %s' % (
-            sid, r.get('property'), r.get('repo_tests_pass'), r.get('demo_fails_with_change'), r.get('caught'),
+        print('%-28s %-4s tests_pass=%s demo_ok_without=%s demo_fails=%s caught=%s seeds=%s %s' % (
+            sid, r.get('property'), r.get('repo_tests_pass'), r.get('demo_passes_without_change'), r.get('demo_fails_with_change'), r.get('caught'),
             ''.join('%s:%s ' % (k, 'Y' if v else 'N') for k, v in sorted(r.get('caught_by_seed', {}).items())),
             r.get('error', '') or (r.get('checks', {}).get(r.get('property'), {}).get('first', '')[:120])))
         if os.path.exists(path):
